@@ -105,4 +105,16 @@ PROPS = {
         'rule': "one evaluation = one render of a spelled item list (or identity source); a cell = (left neighbour kind, its right marker, text-or-raw and its whitespace class, right neighbour's left marker, right neighbour kind), plus identity cells by delimiter class",
         'must_observe': ['templates_compared', 'identity_checks', 'respelling_groups'],
     },
+    'C06': {
+        'level': 'exploration',
+        'technique': 'totality monitor: panic recorder + supervised child processes (stack overflow/abort attribution) + per-case CPU watchdog over nesting sweeps, length sweeps, corpus mutation, token soup and accepted delimiter sets',
+        'claim': 'add_raw_template and render_str are fed (1) every recursive construct nested 1..60 deep and far beyond the limits, (2) every loop-parsed construct chained 10^2..10^4 (quick) / 10^6 (thorough) times, '
+                 '(3) token-level mutations (drop, duplicate, swap, truncate at any byte, wrong end names, multi-byte characters next to delimiters) of the repository\'s own snapshot inputs, (4) delimiter-rich token soup, '
+                 '(5) random accepted delimiter sets (ASCII pairs, two-byte characters, members equal to each other or containing `-`/quotes/`%`) with texts built from their members, (6) hostile template names, (7) huge numeric literals. '
+                 'Any panic, process death or CPU-budget overrun (confirmed alone with a 10x budget) is a violation; every error is also formatted with Display.',
+        'note': 'non-termination is decided as bounded progress: 20 s of CPU per case (sources <= 4 MB), re-run alone with 200 s before it counts; stack verdicts hold for an 8 MiB stack and the optimised verdict build',
+        'rule': "one evaluation = one source registered (and rendered as a one-off string unless it calls range); a cell = (family or construct, depth/length class, accepted/rejected)",
+        'must_observe': ['nesting_sweep_points', 'length_sweep_points', 'accepted', 'rejected'],
+        'case_budget_ms': 20000,
+    },
 }
